@@ -4,8 +4,8 @@ import time
 
 from lib import coq_list as L
 
-THEOREMS = ['C01_alg_sound', 'C01_alg_complete', 'C01_fuel_suffices', 'C01_basic', 'C01_basic_trace',
-            'C01_predictions_spec', 'C01_chart_is_language', 'C01_example']
+THEOREMS = ['C01_predictions_spec', 'C01_chart_is_language', 'C01_alg_sound', 'C01_alg_complete', 'C01_basic_trace',
+            'C01_fuel_suffices', 'C01_basic', 'C01_general', 'C01_example']
 GEN_DEPS = []
 RULE = ('random CFGs (<=5 non-terminals, <=4 single-character terminals, <=3 alternatives of length <=3; nullable '
         'alternatives, left/right/middle recursion, unit cycles, ambiguity, useless rules; optionally EBNF operators) '
